@@ -323,6 +323,18 @@ class Crate:
             c = [b for b in self.bodies if not b.is_closure and (strip(b.path) == want or strip(b.path).endswith("::" + want))]
             if len(c) == 1:
                 return c[0]
+        if not c:
+            # an item moved to another module of the crate (and re-exported at the old path) keeps its name, its self
+            # type and its trait: compare with the module qualifiers (snake_case segments in front of a name) removed
+            import re as _re
+
+            def short(p):
+                return _re.sub(r"(?<![\w>])(?:[a-z_][a-z0-9_]*::)+(?=[A-Za-z_<])", "", p)
+
+            want = short(path_suffix)
+            c = [b for b in self.bodies if not b.is_closure and short(b.path) == want]
+            if len(c) == 1:
+                return c[0]
         return None
 
     def bodies_matching(self, pred):
@@ -346,6 +358,64 @@ class Crate:
         return None
 
 
+def canon_path(p):
+    """rustc prints an item of an impl block that sits in another module than its self type as
+    `mods::<impl Type<..>>::name` / `mods::<impl Trait for Type>::name`; the same item next to the type prints as
+    `Type::<..>::name` / `<Type as Trait>::name`.  One spelling for both, so that moving an impl block into a
+    submodule does not change the name the rules know the function by."""
+    k = p.find("<impl ")
+    if k < 0 or (k > 0 and not p[:k].endswith("::")):
+        return p
+    depth = 0
+    end = None
+    for i in range(k, len(p)):
+        if p[i] == "<":
+            depth += 1
+        elif p[i] == ">" and p[i - 1] != "-":
+            depth -= 1
+            if depth == 0:
+                end = i
+                break
+    if end is None:
+        return p
+    inner = p[k + 6:end]
+    rest = p[end + 1:]
+    depth = 0
+    split = None
+    for i in range(len(inner)):
+        if inner[i] == "<":
+            depth += 1
+        elif inner[i] == ">" and inner[i - 1] != "-":
+            depth -= 1
+        elif depth == 0 and inner.startswith(" for ", i):
+            split = i
+            break
+    if split is not None:
+        return "<%s as %s>%s" % (inner[split + 5:], inner[:split], canon_path(rest))
+    ty = inner
+    lt = ty.find("<")
+    if lt > 0 and not ty[:lt].endswith("::"):
+        ty = ty[:lt] + "::" + ty[lt:]
+    return ty + canon_path(rest)
+
+
+def _canon_paths(j):
+    """apply canon_path to every printed path of an export (bodies, callees, impls), in place"""
+    if isinstance(j, dict):
+        for k, v in j.items():
+            if k == "path" and isinstance(v, str) and "<impl " in v:
+                # the standard library's own items keep rustc's spelling (the axiom tables name them that way)
+                owner = str(j.get("def") or j.get("key") or "")
+                if not owner.startswith(("std::", "core::", "alloc::")) and not v.startswith(("std::", "core::", "alloc::")):
+                    j[k] = canon_path(v)
+            elif isinstance(v, (dict, list)):
+                _canon_paths(v)
+    elif isinstance(j, list):
+        for v in j:
+            if isinstance(v, (dict, list)):
+                _canon_paths(v)
+
+
 class Program:
     """All crates of one export."""
 
@@ -359,6 +429,7 @@ class Program:
                 continue
             with open(os.path.join(directory, f)) as fh:
                 j = json.load(fh)
+            _canon_paths(j)
             # prefer the library target when a crate has several
             kind = f.split(".")[-2]
             name = j["crate"] if kind in ("rlib", "lib", "proc-macro") else "%s@%s" % (j["crate"], kind)
